@@ -235,6 +235,28 @@ def one_shape(col, n, edges, rng, variants, sample=False):
                                   {"observed": order, "predicted": exp, "failed_first_at": ids[f]}, rp)
             elif r2[0] != "ok" and not isinstance(r2[1], TawaziUsageError):
                 col.counters["cp_executor_retry_raised_other"] += 1
+    if n >= 3 and not sp.get("nest") and rng.random() < 0.3:
+        # setup(): an ancestor-closed set of setup nodes runs in the order of the compound priorities of the WHOLE DAG
+        import copy as _copy
+
+        sp_s = _copy.deepcopy(sp)
+        sp_s.pop("nest", None)
+        for fs in sp_s["fns"].values():
+            fs.pop("tag", None)
+        stp = set()
+        for i in range(n):
+            if all(q in stp for q in g.predecessors(i)) and rng.random() < 0.65:
+                stp.add(i)
+        if len(stp) >= 2:
+            for i in stp:
+                sp_s["fns"]["f%d" % i]["setup"] = True
+            sp_s["fns"] = {k: dict(v, priority=prios[int(k[1:])]) for k, v in sp_s["fns"].items()}
+            plain_s = {name: probes.mkprobe(name) for name in sp_s["fns"]}
+            d_s, _e, _p = S.build_tawazi(sp_s, plain=plain_s)
+            cp_s = S.cp_spec(sp_s)
+            col.counters["cp_setup_runs"] += 1
+            via = rng.choice(["dag.setup()", "executor().setup()"])
+            run_order(col, "setup:" + via, (lambda: d_s.setup()) if via == "dag.setup()" else (lambda: d_s.executor().setup()), ids, g, cp_s, stp, dict(rp, setup=sorted(stp)))
     if twin is not None:
         # the second decoration of the same function: still the DECLARED priorities, whatever happened to the first object
         check_table(col, "second_decoration_of_the_same_function", dict(twin.graph_ids.compound_priority), cp_declared, ids, allset, rp)
